@@ -20,7 +20,8 @@ func init() {
 	})
 }
 
-func runC09(c *Ctx, r *Report) {
+// c09r1: closed, limit- and duplicate-checked writers of the selection (shared with C07: output order = selection order).
+func c09r1(c *Ctx, r *Report) {
 	l := c.L
 	fSel := l.Field("fzf", "Terminal", "selected")
 	fMulti := l.Field("fzf", "Terminal", "multi")
@@ -125,6 +126,11 @@ func runC09(c *Ctx, r *Report) {
 		r.floor("deletions from Terminal.selected", nD, 1)
 		r.floor("wholesale replacements of Terminal.selected", nS, 4)
 	}
+}
+
+func runC09(c *Ctx, r *Report) {
+	l := c.L
+	c09r1(c, r)
 
 	// ---------------- R2 ----------------
 	r.rule("C09-R2", "E (exhaustiveness)", "P1",
@@ -267,6 +273,9 @@ func runC09(c *Ctx, r *Report) {
 		})
 	}
 	r.floor("stores to Terminal.yanked", nY, 5)
+	c09r5(c, r)
+	c09r6(c, r)
+	c08r10(c, r) // selection is dropped on reload: revision and snapshot must move together
 }
 
 func isAppendOnInput(v ssa.Value, alias func(ssa.Value) bool) bool {
